@@ -27,7 +27,7 @@ def _shapes(tier):
     if tier == "quick":
         return [(2, 1, 1), (2, 2, 1), (3, 1, 1), (3, 1, 2), (3, 2, 1), (2, 3, 1), (2, 1, 2)]
     return [(2, 1, 1), (2, 2, 1), (2, 3, 1), (2, 1, 2), (2, 2, 2), (2, 4, 1), (3, 1, 1), (3, 1, 2), (3, 2, 1), (3, 2, 2), (3, 3, 1),
-            (3, 4, 1), (4, 1, 1), (4, 1, 2), (4, 2, 1), (4, 3, 1), (4, 2, 2), (4, 4, 1)]
+            (3, 4, 1), (4, 1, 1), (4, 1, 2), (4, 2, 1), (4, 3, 1), (4, 2, 2)]
 
 
 def bounds(tier, seed):
@@ -95,7 +95,7 @@ def run_case(case):
         X2 = np.zeros((n, k))
         X[:, spos], X[:, opos] = S, O
         X2[:, spos], X2[:, opos] = S2, O2
-        for alpha in ALPHAS:
+        for alpha in (ALPHAS if case["base"] == 3 or case["n"] * (case["s"] + case["o"]) <= 12 else (1.0, 0.3)):
             if alpha not in (1.0, 0.0):
                 out["classes"].add("alpha_fraction")
             ctx = "X=%r sensitive_feature_ids=%r alpha=%r" % (X.tolist(), spos, alpha)
